@@ -488,10 +488,10 @@ func runCase(k *kase) (res runResult) {
 			herr = p.finish().err
 		case 'o':
 			rw := &fakeRW{id: e.c.String()}
-			if _, dup := nodes[e.c.node].rws[rw.id]; !dup {
+			_, herr = nodes[e.c.node].sm.CreateConnection(rw, rw)
+			if herr == nil {
 				nodes[e.c.node].rws[rw.id] = rw
 			}
-			_, herr = nodes[e.c.node].sm.CreateConnection(rw, rw)
 		case 'h', 'f', 'u', 'v':
 			req := packet.HandshakeRequest{ClientID: int64(e.c.client), Version: "verif", Protocol: "tcp", Token: "ok", ConnectionType: "control"}
 			if e.code == 'f' || e.code == 'v' {
